@@ -237,6 +237,18 @@ Proof.
 Qed.
 Print Assumptions C19_keys_collision_refuted.
 
+(* ---- the SQL group index (groupIndex table of mysql/group_index.go: replace INTO in save, DELETE in
+   remove, re-insertion by refreshCache) is the third index: whenever the full invariant holds it has
+   exactly one row per group of the list, the row's groupheight being the group's position. *)
+Theorem C19_sql_index_is_the_list : forall g0 s, genesis_ok g0 -> Inv g0 s ->
+  exists l, SpecL g0 s l /\
+    NoDup (map fst (sq (st s))) /\
+    (forall i h, In (i, h) (sq (st s)) <->
+                 exists g, nth_error l (N.to_nat h) = Some g /\ gid g = i /\ gheight g = h) /\
+    length (sq (st s)) = length l.
+Proof. exact sql_index_is_the_list. Qed.
+Print Assumptions C19_sql_index_is_the_list.
+
 (* ---- wrong or extra sqlite rows ----
    refreshCache's loop on any table: every group it walks over gets its right row, every other hash
    keeps whatever row it had. *)
